@@ -59,6 +59,13 @@ func hasBaseTag(t types.Type) bool {
 func runC18(c *Ctx) {
 	const pMeta = "versions/1_0/doctransformer/metadata"
 	const pDT = "versions/1_0/doctransformer/didtransformer"
+	// the id helper (a method of the transformer or a function), under whatever name it carries now
+	goidName := "getObjectID"
+	if g := c.Method(pDT, "Transformer", "getObjectID"); g != nil {
+		goidName = fname(g)[strings.LastIndex(fname(g), ".")+1:]
+	} else if g := c.Fn(pDT, "getObjectID"); g != nil {
+		goidName = fname(g)[strings.LastIndex(fname(g), ".")+1:]
+	}
 	// ---------------- O1
 	cmps := c.sortComparators(pMeta)
 	for i, less := range cmps {
@@ -243,7 +250,7 @@ func runC18(c *Ctx) {
 								for _, fs := range *al.Referrers() {
 									if ia, isIA := fs.(*ssa.IndexAddr); isIA {
 										for _, st := range *ia.Referrers() {
-											if s, isSt := st.(*ssa.Store); isSt && strings.Contains(c.Path(s.Val, nil), "getObjectID(") {
+											if s, isSt := st.(*ssa.Store); isSt && strings.Contains(c.Path(s.Val, nil), goidName+"(") {
 												okID = true
 											}
 										}
@@ -331,6 +338,19 @@ func runC18(c *Ctx) {
 	c.Min("C18.T1", 3)
 
 	// ---------------- P1
+	// the @base flag is the boolean field the exported option WithBase sets (whatever its name)
+	baseFlag := "includeBase"
+	if wb := c.Fn(pDT, "WithBase"); wb != nil {
+		for _, an := range wb.AnonFuncs {
+			forEachInstr(an, func(in ssa.Instruction) {
+				if st, ok := in.(*ssa.Store); ok {
+					if fa, isFA := st.Addr.(*ssa.FieldAddr); isFA && isBoolType(st.Val.Type()) {
+						baseFlag = fieldName(fa.X.Type(), fa.Field)
+					}
+				}
+			})
+		}
+	}
 	goid := c.Method(pDT, "Transformer", "getObjectID")
 	if goid == nil {
 		goid = c.Fn(pDT, "getObjectID")
@@ -373,7 +393,7 @@ func runC18(c *Ctx) {
 			detail = "flag " + flag
 			switch {
 			case !okG:
-			case strings.HasSuffix(flag, ".includeBase"):
+			case strings.HasSuffix(flag, "."+baseFlag):
 			case regexp.MustCompile(`^\$\d$`).MatchString(flag):
 				// a boolean parameter: every caller passes the transformer's includeBase
 				k := int(flag[1] - '0')
@@ -381,7 +401,7 @@ func runC18(c *Ctx) {
 				for _, f := range c.Funcs {
 					for _, cl := range callsTo(f, goid) {
 						n++
-						if k >= len(cl.Call.Args) || !strings.HasSuffix(c.Path(cl.Call.Args[k], nil), ".includeBase") {
+						if k >= len(cl.Call.Args) || !strings.HasSuffix(c.Path(cl.Call.Args[k], nil), "."+baseFlag) {
 							okG = false
 							detail += "; " + short(f.String()) + " passes " + c.Path(cl.Call.Args[k], nil)
 						}
@@ -491,7 +511,7 @@ func runC18(c *Ctx) {
 					extra = append(extra, cnd)
 				}
 			}
-			okB = okB && len(extra) == 1 && extra[0] == "$0.includeBase=true"
+			okB = okB && len(extra) == 1 && extra[0] == "$0."+baseFlag+"=true"
 		}
 		c.Check("C18.P1", "@base-context-iff-includeBase", okB, td.Pos(), fmt.Sprintf("the @base context entry is added under the conditions %v (expected exactly [$0.includeBase=true]; %d producer call(s))", extra, len(sites)))
 	} else {
@@ -499,7 +519,7 @@ func runC18(c *Ctx) {
 	}
 	if pk != nil {
 		c.mapLiteralRule("C18.P1", "verification-method", pk, "document.PublicKey", map[string]func(string) bool{
-			`"id"`:         func(s string) bool { return strings.Contains(s, "getObjectID(") && strings.Contains(s, ").ID(") },
+			`"id"`:         func(s string) bool { return strings.Contains(s, goidName+"(") && strings.Contains(s, ").ID(") },
 			`"type"`:       func(s string) bool { return strings.HasPrefix(s, "(document.PublicKey).Type(") },
 			`"controller"`: func(s string) bool { return strings.Contains(s, ").ID(") && !strings.Contains(s, "getObjectID") },
 		})
@@ -507,7 +527,7 @@ func runC18(c *Ctx) {
 		// used in the document without its @context entry)
 		c.CheckGuardLoop("C18.P1", "key-context:looked-up-for-every-key", pk, nil, &GCheck{Name: "key-type context found", NoDescend: true, MatchOK: func(c *Ctx, v ssa.Value, env Env) bool {
 			lk, ok := v.(*ssa.Lookup)
-			return ok && strings.HasSuffix(c.Path(lk.X, env), ".keyCtx") && strings.Contains(c.Path(lk.Index, env), ").Type(")
+			return ok && strings.HasPrefix(c.Path(lk.X, env), "$0.") && types.TypeString(lk.X.Type(), nil) == "map[string]string" && strings.Contains(c.Path(lk.Index, env), ").Type(")
 		}})
 		// exactly one append of the method per iteration, unconditionally after the context lookup
 		c.oneAppendPerIteration("C18.P1", "verification-method:one-append-per-key", pk, "[]document.PublicKey")
@@ -518,7 +538,7 @@ func runC18(c *Ctx) {
 		c.Analysed(ps)
 		c.mapLiteralRule("C18.P1", "service", ps, "document.Service", map[string]func(string) bool{
 			`"id"`: func(s string) bool {
-				return strings.Contains(s, "getObjectID(") && strings.Contains(s, "(document.Service).ID(")
+				return strings.Contains(s, goidName+"(") && strings.Contains(s, "(document.Service).ID(")
 			},
 			`"type"`:            func(s string) bool { return strings.HasPrefix(s, "(document.Service).Type(") },
 			`"serviceEndpoint"`: func(s string) bool { return strings.HasPrefix(s, "(document.Service).ServiceEndpoint(") },
